@@ -253,6 +253,13 @@ theorem TX.cancelKindFor_fst (h : TX fr w) (p : Pid) (act : Nat) (sig : Option I
   have hne : ¬ e.item.a = act := by rw [this]; exact fun h => ha h.symm
   simp [hne]
 
+/-- cancelling the pending user events (pattern cancel): none of them is a timer -/
+theorem TX.cancelUserAll_fst (h : TX fr w) : TX fr (cancelUserAll w).1 := by
+  obtain ⟨hrel, _, hstay, _⟩ := cancelUserAll_spec w h.ei
+  refine h.ofCanRel hrel (fun q k hk e he h1 => hstay e he ?_)
+  have := (h.tl.owner h.ei hk he h1).1
+  rw [this]; decide
+
 /-- cancelling everything pending for a process that has no timer registered -/
 theorem TX.cancelAllFor (h : TX fr w) (p : Pid) (hp : ∀ k, Await.time k ∉ (w.proc p).awaits) : TX fr (cancelAllFor w p) := by
   obtain ⟨hrel, _, hstay⟩ := cancelAllFor_spec w p h.ei
